@@ -507,7 +507,8 @@ pub fn run(args: &Args, mon: &mut Mon) -> (String, Vec<&'static str>) {
     });
 
     // random shapes beyond the exhaustive family
-    let n_rand: u64 = if miri { args.param_u64("rand", 40) } else if thorough { 2_000_000 } else { 150_000 };
+    let scale = args.param_u64("scale", 1);
+    let n_rand: u64 = if miri { args.param_u64("rand", 40) } else if thorough { 2_000_000 * scale } else { 150_000 * scale };
     par_run(mon, args.threads, n_rand, |i, m| {
         if !args.mine(i) {
             return;
@@ -538,7 +539,7 @@ pub fn run(args: &Args, mon: &mut Mon) -> (String, Vec<&'static str>) {
         check_std_path(&p, m);
     });
 
-    let n_onehop: u64 = if miri { 30 } else if thorough { 200_000 } else { 20_000 };
+    let n_onehop: u64 = if miri { 30 } else if thorough { 200_000 * scale } else { 20_000 * scale };
     {
         let mut r = Rng::fork(args.seed, 0x0e0e);
         for _ in 0..n_onehop {
